@@ -2,6 +2,7 @@ SPECIFICATION Spec
 CONSTANTS
   Nodes = {1, 2, 3}
   MaxEvents = 14
+  WithReload = FALSE
   Stricts = {TRUE, FALSE}
   Excl = {0, 1, 2, 3}
   Fams = {"4", "6"}
